@@ -606,7 +606,18 @@ func (P) Monitor(c *hx.CaseRun) []hx.Failure {
 				fail("one_payload_per_hrs", "signdata-signing-oracle", fmt.Sprintf("op %d: SignData signed bytes that are the sign-bytes of a vote/proposal (%s)", i, ans))
 			}
 		case "loadbad":
+			// only a file that lost or corrupted a NON-EMPTY last-signed record matters: with nothing signed yet there is
+			// nothing a fresh start could sign twice
+			nonEmpty := false
 			for _, f := range atoks {
+				if strings.HasPrefix(f, "good=loaded:") && strings.Contains(f, "/true/true:") {
+					nonEmpty = true
+				}
+			}
+			for _, f := range atoks {
+				if !nonEmpty && !strings.HasPrefix(f, "good=") {
+					continue
+				}
 				kv := strings.SplitN(f, "=", 2)
 				if len(kv) != 2 {
 					continue
